@@ -1,6 +1,9 @@
 package zzsim
 
-import "fmt"
+import (
+	"fmt"
+	"time"
+)
 
 // Chan stands in for a Go channel in the instrumented library. The model state
 // (how many values are buffered, whether it is closed, who waits) lives in
@@ -364,4 +367,51 @@ func selPark(n int) {
 	cur.since = s.steps
 	s.record("block", cur.id, -1, 0, "select")
 	s.block(0)
+}
+
+// ---------------------------------------------------------------- timers on the simulated clock
+
+// After mirrors time.After: a channel that receives the (simulated) time once d has elapsed.
+func After(d time.Duration) *Chan[time.Time] {
+	ch := MakeChan[time.Time](1)
+	spawn(0, func() {
+		Sleep(d)
+		ch.Send(Now())
+	})
+	return ch
+}
+
+// AfterFunc mirrors time.AfterFunc for the fire-and-forget use: f runs on its own task after d.
+// The returned stopper only reports whether the call had not fired yet; it cannot cancel it.
+func AfterFunc(d time.Duration, f func()) *FuncTimer {
+	t := &FuncTimer{}
+	spawn(0, func() {
+		Sleep(d)
+		if t.markFired() {
+			f()
+		}
+	})
+	return t
+}
+
+type FuncTimer struct{ fired, stopped bool }
+
+//go:norace
+func (t *FuncTimer) markFired() bool {
+	if t.stopped {
+		return false
+	}
+	t.fired = true
+	return true
+}
+
+// Stop prevents the function from running if it has not started yet.
+//
+//go:norace
+func (t *FuncTimer) Stop() bool {
+	if t.fired || t.stopped {
+		return false
+	}
+	t.stopped = true
+	return true
 }
